@@ -315,10 +315,10 @@ Section NgSearch.
 
   (** nogood_internal started from the grounded interpretation; returns the models in the order sent *)
   Definition nogood_search (budget : nat) (st : store) (draws : list N)
-    : option (store * list (list N)) :=
+    : option (store * list (list N) * list N) :=
     do (s1, g) <- grounded c st ac;
     do (s2, fin) <- ng_loop budget s1 (mkNG g (ngs_new (length ac)) [] [] false false [] draws);
-    Some (s2, rev (g_out fin)).
+    Some (s2, rev (g_out fin), g_draws fin).     (* the rest of the draw stream: the generator state lives in the Adf object *)
 End NgSearch.
 
 (** the searches as the current source has them (flags regenerated by tools/translate.py) *)
